@@ -101,6 +101,13 @@ def models():
         c = x + y >= p["q"]
         return dict(P=Problem().minimize(o).subject_to(c), exprs=[o, c.expr], vars=[x, y])
 
+    def m_linconcoef(p):
+        # an all-linear model whose constraint ROW holds the parameter (objective and right-hand side are plain data)
+        x, y = xy()
+        o = x + 2 * y
+        c = p["p"] * x + y >= 3
+        return dict(P=Problem().minimize(o).subject_to(c), exprs=[o, c.expr], vars=[x, y])
+
     def m_vecelems(p):
         v = VectorVariable("v", 3, lb=0.0, ub=4.0)
         o = v.dot(v)
@@ -137,6 +144,7 @@ def models():
         "parameter-only-constraint": ({"p": (3.0, 7.0, 4.0)}, m_paramonly),
         "two-params": ({"p": (1.0, 2.0, 3.0), "q": (1.5, 0.5, 2.5)}, m_two),
         "linear-in-x": ({"p": (1.0, 3.0, -1.0), "q": (1.0, 2.0, 0.5)}, m_linear),
+        "linear-constraint-row": ({"p": (1.0, 3.0, 0.5)}, m_linconcoef),
         "vector-elements": ({"P": ((1.0, 2.0, 3.0), (3.0, 0.5, 1.0), (0.0, 4.0, 2.0))}, m_vecelems),
         "P@x": ({"P": ((1.0, 2.0, 3.0), (3.0, 0.5, 1.0), (0.0, 4.0, 2.0))}, m_vecmatmul),
         "x.dot(S@x)": ({"S": (S1, S2, S3)}, m_matparam),
@@ -165,11 +173,13 @@ def compile_all(built, iterative):
     e = built["exprs"][0]
 
     def mk():
+        from mc.callers import InPlace      # solver calling discipline: one buffer updated in place, each point twice
+
         return {
-            "value": compiler.compile_expression(e, V),
-            "gradient": compiler.compile_gradient(e, V),
-            "jacobian": autodiff.compile_jacobian(built["exprs"], V),
-            "hessian": autodiff.compile_hessian(e, V),
+            "value": InPlace(compiler.compile_expression(e, V)),
+            "gradient": InPlace(compiler.compile_gradient(e, V)),
+            "jacobian": InPlace(autodiff.compile_jacobian(built["exprs"], V)),
+            "hessian": InPlace(autodiff.compile_hessian(e, V)),
         }
 
     if iterative:
